@@ -148,7 +148,7 @@ class Concretiser:
         simple = {
             "rset": "RSET", "noop": "NOOP", "capa": "CAPA", "stls": "STLS",
             "unknown": rng.choice(["XYZZY", "AUTH PLAIN", "LAST", "HELP me", "DELETE 1", "STATS"]),
-            "empty": "", "garbage": "\x00\x01\xfe\xff\x80 \x7f\x1b[2J", "long": "NOOP " + "x" * 70000,
+            "empty": rng.choice(["", "", " ", "   ", "\t", " \t "]), "garbage": "\x00\x01\xfe\xff\x80 \x7f\x1b[2J", "long": "NOOP " + "x" * 70000,
         }
         text = simple[c]
         if c in ("rset", "noop", "capa", "stls") and self.mixed:
